@@ -15,6 +15,7 @@ import (
 	"log"
 	"net"
 	"os"
+	"strings"
 	"sync"
 	"sync/atomic"
 	"time"
@@ -392,9 +393,19 @@ func (pm *Portmapper) handleCall(data []byte, remoteAddr net.Addr) ([]byte, erro
 		case 0: // RPCBPROC_NULL
 			result = nil
 		case 1: // RPCBPROC_SET - not implemented
-			result = pm.handleRpcbSet(r)
+			// Only allow SET from localhost (same rule as portmap v2)
+			if !isLoopbackClient(remoteAddr) {
+				result = pm.encodeBool(false)
+			} else {
+				result = pm.handleRpcbSet(r)
+			}
 		case 2: // RPCBPROC_UNSET - not implemented
-			result = pm.handleRpcbUnset(r)
+			// Only allow UNSET from localhost (same rule as portmap v2)
+			if !isLoopbackClient(remoteAddr) {
+				result = pm.encodeBool(false)
+			} else {
+				result = pm.handleRpcbUnset(r)
+			}
 		case 3: // RPCBPROC_GETADDR
 			result = pm.handleGetAddr(r)
 		case 4: // RPCBPROC_DUMP
@@ -507,14 +518,30 @@ func (pm *Portmapper) handleDump() []byte {
 	return buf.Bytes()
 }
 
+// isLoopbackClient reports whether a registration request may change the
+// registry: only clients on a loopback address may (all protocol versions).
+// A nil address means an in-process caller. An address that cannot be parsed
+// is not loopback.
+func isLoopbackClient(remoteAddr net.Addr) bool {
+	if remoteAddr == nil {
+		return true
+	}
+	host, _, err := net.SplitHostPort(remoteAddr.String())
+	if err != nil {
+		host = remoteAddr.String()
+	}
+	// an IPv6 zone ("fe80::1%eth0") is not part of the address
+	if i := strings.IndexByte(host, '%'); i >= 0 {
+		host = host[:i]
+	}
+	ip := net.ParseIP(host)
+	return ip != nil && ip.IsLoopback()
+}
+
 func (pm *Portmapper) handleSet(r io.Reader, remoteAddr net.Addr) []byte {
 	// Only allow SET from localhost
-	if remoteAddr != nil {
-		host, _, _ := net.SplitHostPort(remoteAddr.String())
-		ip := net.ParseIP(host)
-		if ip != nil && !ip.IsLoopback() {
-			return pm.encodeBool(false)
-		}
+	if !isLoopbackClient(remoteAddr) {
+		return pm.encodeBool(false)
 	}
 
 	var prog, vers, prot, port uint32
@@ -538,12 +565,8 @@ func (pm *Portmapper) handleSet(r io.Reader, remoteAddr net.Addr) []byte {
 
 func (pm *Portmapper) handleUnset(r io.Reader, remoteAddr net.Addr) []byte {
 	// Only allow UNSET from localhost
-	if remoteAddr != nil {
-		host, _, _ := net.SplitHostPort(remoteAddr.String())
-		ip := net.ParseIP(host)
-		if ip != nil && !ip.IsLoopback() {
-			return pm.encodeBool(false)
-		}
+	if !isLoopbackClient(remoteAddr) {
+		return pm.encodeBool(false)
 	}
 
 	var prog, vers, prot, port uint32
